@@ -397,7 +397,17 @@ class Engine:
     def read_place(self, st, fr, pl):
         """Value of a scalar place, or ('agg', path) for aggregates."""
         t = self.ty(pl["ty"])
+        fr.last_slice = None
         path, elem = self.resolve(st, fr, pl)
+        if elem and self.extent is not None and fr.depth == 0 and fr.last_slice is not None and fr.last_slice[1] == self.extent[0]:
+            # element read of the extent-limited slice: (*s)[idx]
+            for e in pl["p"]:
+                if isinstance(e, dict) and "index" in e:
+                    iv = st.env.get((("L", fr.id, e["index"]),))
+                    if iv is not None and iv[0] == "int":
+                        self.extent_read(st, fr, fr.last_slice[2] + iv[1], Lin.const(1), "element")
+                elif isinstance(e, dict) and "const_index" in e and not e["from_end"]:
+                    self.extent_read(st, fr, fr.last_slice[2] + e["const_index"], Lin.const(1), "element")
         if elem:
             if self.is_agg(t):
                 return ("agg", None)
@@ -632,6 +642,14 @@ class Engine:
         if ck == "IntToInt":
             lin = self.as_lin(st, v)
             r = ty_range(tt)
+            fr_ = ty_range(ft)
+            if self.recording and fr.depth == 0 and lin is not None and r is not None and fr_ is not None and (fr_[0] < r[0] or fr_[1] > r[1]):
+                lo_, hi_ = st.lower(lin), st.upper(lin)
+                rec = self.cast_facts.setdefault((self.root.path, self.cur_block, self.cur_stmt), {"lo": lo_, "hi": hi_, "to": tt.get("s"), "from": ft.get("s"), "line": self.cur_line})
+                if lo_ is not None and (rec["lo"] is None or lo_ < rec["lo"]):
+                    rec["lo"] = lo_
+                if hi_ is not None and (rec["hi"] is None or hi_ > rec["hi"]):
+                    rec["hi"] = hi_
             if lin is not None and r is not None:
                 if st.entails(lin - r[1]) and st.entails(Lin.const(r[0]) - lin):
                     return V_int(lin)
@@ -955,6 +973,30 @@ class Engine:
         if lin.c or not parts:
             parts.append("%+d" % lin.c)
         return " ".join(parts)
+
+    def extent_read(self, st, fr, off, n, what):
+        """Obligation: the octets [off, off+n) read from the extent-limited slice lie below its declared length."""
+        if self.extent is None or not self.recording or fr.depth != 0:
+            return
+        base, hlen = self.extent
+        cond = ("le", off + n - hlen)
+        key = "extent|%s" % self.site_key(fr, self.cur_block if self.cur_term is None else self.cur_term, "extent:" + what)
+        self.oblige(st, fr, key, "extent", self.cur_line or fr.body.line, cond, "always")
+
+    def extent_escape(self, st, fr, v, what):
+        """A slice / iterator over the extent-limited input leaves the analysed code (external reader, return value)."""
+        if self.extent is None:
+            return
+        if v[0] in ("agg", "ptr") and v[1] is not None:
+            x = st.env.get(v[1])
+            if x is not None and x[0] in ("iter", "slice"):
+                v = x
+        if v[0] == "slice" and v[1] == self.extent[0]:
+            self.extent_read(st, fr, v[2], v[3], what)
+        elif v[0] == "iter":
+            d = dict(v[1])
+            if d.get("base") == self.extent[0] and isinstance(d.get("count"), Lin):
+                self.extent_read(st, fr, d.get("off", Lin.const(0)), d["count"], what)
 
     # ------------------------------------------------------------------ partitions / join
     def part_key(self, st):
@@ -1368,6 +1410,8 @@ class Interp:
         blk = body.blocks[bidx]
         for si, stmt in enumerate(blk.stmts):
             k = stmt["k"]
+            if fr.depth == 0:
+                self.cur_block, self.cur_stmt, self.cur_line = bidx, si, stmt.get("line")
             if k == "assign":
                 for st in states:
                     if st.dead:
@@ -1387,10 +1431,26 @@ class Interp:
         t = blk.term
         k = t["k"]
         succ = {}
+        if fr.depth == 0:
+            self.cur_block, self.cur_stmt, self.cur_line, self.cur_term = bidx, None, t.get("line"), bidx
+        try:
+            return self._terminator(fr, bidx, blk, states, t, k, succ)
+        finally:
+            if fr.depth == 0:
+                self.cur_term = None
+
+    def _terminator(self, fr, bidx, blk, states, t, k, succ):
+        body = fr.body
         if k == "goto":
             succ[t["target"]] = states
             return succ, None
         if k == "return":
+            if self.extent is not None and fr.depth == 0 and self.recording:
+                rp = (("L", fr.id, 0),)
+                for st in states:
+                    for p, v in list(st.env.items()):
+                        if len(p) >= 1 and p[0] == rp[0] and v[0] in ("slice", "iter"):
+                            self.extent_escape(st, fr, v, "returned")
             return succ, states
         if k == "unreachable":
             return succ, None
@@ -1521,6 +1581,14 @@ class Interp:
         dty = self.ty(dest["ty"])
         path = callee_path(t)
         ctx = CallCtx(self, fr, bidx, st, t, args, argtys, dest, dty, path)
+        if self.extent is not None and fr.depth == 0 and self.recording:
+            last = (path or "").split("::")[-1]
+            reads = not (last in ("len", "is_empty", "as_ptr", "as_mut_ptr", "index", "index_mut", "get", "get_mut", "iter", "take", "map",
+                                  "filter", "rev", "copied", "cloned", "enumerate", "zip", "into_iter", "skip", "into", "from", "as_ref", "deref")
+                         and not self.facts.resolve_call(t))
+            if reads:
+                for a in args:
+                    self.extent_escape(st, fr, a, "passed to %s" % (path or "?").split("::")[-1])
         # 1. models of external / well-known functions
         m = self.models.lookup(path, c)
         if m is not None:
@@ -1693,6 +1761,12 @@ class NumEngine(Interp, Engine):
     def __init__(self, facts, contracts, invariants=None, verbose=False):
         Engine.__init__(self, facts, contracts, invariants, verbose)
         self.tmpl_store = {}
+        self.cast_facts = {}
+        self.cur_block = None
+        self.cur_stmt = None
+        self.cur_line = None
+        self.cur_term = None
+        self.extent = None
         self.pinned = set()
         self.site_cache = {}
         self.prov_cache = {}
@@ -1717,6 +1791,16 @@ class NumEngine(Interp, Engine):
             for l in fr.old.values():
                 if l is not None:
                     self.pinned.update(l.syms())
+        self.extent = None
+        if body.impl_trait == "ber::BerDecoder" and body.name == "decode" and body.arg_count >= 2:
+            # extent rule: reads of the input slice must stay below the declared length h.length
+            import ast as _ast
+            from .contracts import Evaluator, Contract
+            v = st.env.get((("L", fr.id, 1),))
+            ev = Evaluator(self, st, fr, Contract._callee_cursors(self, fr, st), None, None, fr.subst)
+            hl = ev.lin(_ast.parse("a2.length", mode="eval").body)
+            if v is not None and v[0] == "slice" and hl is not None:
+                self.extent = (v[1], hl)
         # fixpoint without recording, then one recording pass over the stable block-entry states
         self.recording = False
         exits, inst = self.run_body(fr, [st])
